@@ -136,90 +136,123 @@ class Prov:
                 if isinstance(e, dict) and "f" in e:
                     return {("upvar", self._upvar_name(e["f"]))}
             return {("upvar", "<env>")}
-        sel = self._selector(p)
-        if sel is not None:
-            r = self._origins_sel(l, sel, 0, set())
+        steps, complete = self._steps(p)
+        if steps:
+            r = self._origins_sel(l, steps, 0, frozenset())
             if r:
                 return r
         return self.origins(l)
 
-    # --- projection-sensitive origins: `(x as Variant).k` / `x.k` look only at what was stored
-    # into that variant payload / field (one level; deeper projections are merged) -----------
+    # --- projection-sensitive origins: `(x as Variant).k` / `x.k` (any depth) look only at what
+    # was stored into that variant payload / field -------------------------------------------
     @staticmethod
-    def _selector(p):
+    def _steps(p):
+        """(steps, complete): the leading field / variant-field projections of a place; complete is
+        False when an element that is not understood (index, subslice ...) cut the list short"""
         elems = [e for e in p["p"] if e != "*"]
-        if not elems:
-            return None
-        e0 = elems[0]
-        if isinstance(e0, dict) and "downcast" in e0 and len(elems) >= 2 and isinstance(elems[1], dict) and "f" in elems[1]:
-            return ("variant", e0["downcast"], elems[1]["f"])
-        if isinstance(e0, dict) and "f" in e0:
-            return ("field", e0["f"])
-        return None
+        steps = []
+        i = 0
+        while i < len(elems):
+            e = elems[i]
+            if isinstance(e, dict) and "downcast" in e and i + 1 < len(elems) and isinstance(elems[i + 1], dict) and "f" in elems[i + 1]:
+                steps.append(("variant", e["downcast"], elems[i + 1]["f"]))
+                i += 2
+            elif isinstance(e, dict) and "f" in e and "downcast" not in e:
+                steps.append(("field", e["f"]))
+                i += 1
+            else:
+                return tuple(steps), False
+        return tuple(steps), True
 
-    def _origins_sel(self, l, sel, depth, seen):
-        if depth > 6 or (l, sel) in seen:
+    def _is_env(self, q):
+        return self.body.kind.startswith(("closure", "coroutine")) and q["l"] == 1
+
+    def _op_sel(self, op, rest, depth, seen):
+        """origins of operand `op` projected by the steps `rest`"""
+        q = op_place(op)
+        if q is None or not rest:
+            return self.origins_op(op)
+        return self._place_sel(q, rest, depth, seen)
+
+    def _place_sel(self, q, rest, depth, seen):
+        if self._is_env(q):
+            return self.origins_place(q)
+        qs, complete = self._steps(q)
+        if not complete:
+            return self.origins_place(q)
+        r = self._origins_sel(q["l"], qs + tuple(rest), depth + 1, seen)
+        return r if r else self.origins(q["l"])
+
+    def _origins_sel(self, l, steps, depth, seen):
+        if not steps:
+            return self.origins(l)
+        if depth > 8 or (l, steps) in seen:
             return None
-        seen = seen | {(l, sel)}
+        seen = seen | {(l, steps)}
         b = self.body
         out = set()
         if 1 <= l <= b.arg_count and not b.defs.get(l):
+            if self._depth > 0 and b.kind in ("Fn", "AssocFn"):
+                return {("param", l, steps)}   # a callee analysed for its caller: keep the projection
             return None
+        sel, rest = steps[0], steps[1:]
         for (bb, kind, d) in b.defs.get(l, []):
             if kind == "call":
-                out |= self._call(d)
+                out |= self._call_sel(d, steps, depth, seen)
                 continue
             dst = d["dst"]
             rv = d["rv"]
-            dsel = [e for e in dst["p"] if e != "*"]
-            if dsel:
-                # partial write  x.f = v  /  (x as V).k = v
-                e0 = dsel[0]
-                if sel[0] == "field" and isinstance(e0, dict) and e0.get("f") == sel[1] and "downcast" not in e0:
+            dsteps, dcomplete = self._steps(dst)
+            if [e for e in dst["p"] if e != "*"]:
+                # partial write  x.f = v  /  (x as V).k = v  (possibly deeper)
+                if not dsteps:
                     out |= self._rv(d)
-                elif sel[0] == "variant" and isinstance(e0, dict) and e0.get("downcast") == sel[1]:
+                    continue
+                n = min(len(dsteps), len(steps))
+                if dsteps[:n] != steps[:n]:
+                    # a write to a different field / payload; a variant step also matches a write to
+                    # the same variant with another field index only if indices are equal -> skip
+                    continue
+                if len(dsteps) <= len(steps) and dcomplete:
+                    out |= self._rv_sel(d, steps[len(dsteps):], depth, seen)
+                else:
                     out |= self._rv(d)
                 continue
-            k = rv["k"]
-            if k in ("use", "cast"):
-                q = op_place(rv["op"])
-                if q is None:
-                    out |= self.origins_op(rv["op"])
-                elif not [e for e in q["p"] if e != "*"] and not (b.kind.startswith(("closure", "coroutine")) and q["l"] == 1):
-                    r = self._origins_sel(q["l"], sel, depth + 1, seen)
-                    out |= r if r else self.origins(q["l"])
-                else:
-                    out |= self.origins_op(rv["op"])
-            elif k in ("ref", "rawptr"):
-                q = rv["place"]
-                if not [e for e in q["p"] if e != "*"] and not (b.kind.startswith(("closure", "coroutine")) and q["l"] == 1):
-                    r = self._origins_sel(q["l"], sel, depth + 1, seen)
-                    out |= r if r else self.origins(q["l"])
-                else:
-                    out |= self.origins_place(q)
-            elif k == "agg":
-                if rv.get("agg") == "adt":
-                    if sel[0] == "variant":
-                        if rv.get("variant_idx") == sel[1]:
-                            if sel[2] < len(rv["ops"]):
-                                out |= self.origins_op(rv["ops"][sel[2]])
-                        # another variant stores nothing into this payload
-                    else:
-                        if len(rv["ops"]) == len(rv.get("fields", [])) and sel[1] < len(rv["ops"]):
-                            out |= self.origins_op(rv["ops"][sel[1]])
-                        else:
-                            out |= self._rv(d)
-                elif rv.get("agg") == "tuple" and sel[0] == "field":
-                    if sel[1] < len(rv["ops"]):
-                        out |= self.origins_op(rv["ops"][sel[1]])
-                else:
-                    out |= self._rv(d)
-            else:
-                out |= self._rv(d)
+            out |= self._rv_sel(d, steps, depth, seen)
         for c in self._mutations().get(l, []):
             for a in c.args[1:]:
                 out |= self.origins_op(a)
         return out or None
+
+    def _rv_sel(self, d, steps, depth, seen):
+        """origins of the value of assignment `d` projected by `steps`"""
+        if not steps:
+            return self._rv(d)
+        rv = d["rv"]
+        sel, rest = steps[0], steps[1:]
+        k = rv["k"]
+        if k in ("use", "cast"):
+            q = op_place(rv["op"])
+            if q is None:
+                return self.origins_op(rv["op"])
+            return self._place_sel(q, steps, depth, seen)
+        if k in ("ref", "rawptr"):
+            return self._place_sel(rv["place"], steps, depth, seen)
+        if k == "agg":
+            if rv.get("agg") == "adt":
+                if sel[0] == "variant":
+                    if rv.get("variant_idx") == sel[1]:
+                        if sel[2] < len(rv["ops"]):
+                            return self._op_sel(rv["ops"][sel[2]], rest, depth, seen)
+                    return set()   # another variant stores nothing into this payload
+                if len(rv["ops"]) == len(rv.get("fields", [])) and sel[1] < len(rv["ops"]):
+                    return self._op_sel(rv["ops"][sel[1]], rest, depth, seen)
+                return self._rv(d)
+            if rv.get("agg") == "tuple" and sel[0] == "field":
+                if sel[1] < len(rv["ops"]):
+                    return self._op_sel(rv["ops"][sel[1]], rest, depth, seen)
+                return set()
+        return self._rv(d)
 
     def _upvar_name(self, idx):
         for u in self.body.j.get("upvars", []):
@@ -288,6 +321,43 @@ class Prov:
             return {("discr", _sid(st))}
         return {("unknown", rv.get("text", k))}
 
+    _IDENTITY = re.compile(r"::(clone|to_owned|deref|deref_mut|as_ref|as_mut|borrow|borrow_mut)$")
+
+    def _local_callee(self, c):
+        if not (self.interproc and self._depth < 3):
+            return None
+        cb = self.body.facts.body(c.name) if c.name else None
+        if cb is not None and cb.id != self.body.id and cb.nblocks <= 60 and cb.kind in ("Fn", "AssocFn"):
+            return cb
+        return None
+
+    def _call_sel(self, c, steps, depth, seen):
+        """origins of (result of call c) projected by steps"""
+        for n in c.names():
+            for s in self.stop_at:
+                if re.search(s, n):
+                    return {("call", c)}
+        if any(self._IDENTITY.search(n) for n in c.names()) and len(c.args) == 1 and not c.local:
+            return self._op_sel(c.args[0], steps, depth, seen)
+        if not is_pass_through(c, self.extra):
+            cb = self._local_callee(c)
+            if cb is not None:
+                sub = Prov(cb, self.extra, self.stop_at, interproc=True, _depth=self._depth + 1)
+                r = sub._origins_sel(0, steps, 0, frozenset())
+                if r:
+                    out = set()
+                    for o in r:
+                        if o[0] == "param":
+                            if o[1] - 1 < len(c.args):
+                                if len(o) > 2 and o[2]:
+                                    out |= self._op_sel(c.args[o[1] - 1], o[2], depth, seen)
+                                else:
+                                    out |= self.origins_op(c.args[o[1] - 1])
+                        else:
+                            out.add(o)
+                    return out
+        return self._call(c)
+
     def _call(self, c):
         for n in c.names():
             for s in self.stop_at:
@@ -302,7 +372,10 @@ class Prov:
                     out = {("call", c)}
                     for o in sub.origins(0):
                         if o[0] == "param" and o[1] - 1 < len(c.args):
-                            out |= self.origins_op(c.args[o[1] - 1])
+                            if len(o) > 2 and o[2]:
+                                out |= self._op_sel(c.args[o[1] - 1], o[2], 0, frozenset())
+                            else:
+                                out |= self.origins_op(c.args[o[1] - 1])
                         elif o[0] == "const":
                             out.add(o)
                     return out
